@@ -455,6 +455,10 @@ class Calibrator(BaseSeedable):
 
                 self.current_batch_index += 1
 
+                # the checkpoint must include the batch that triggers early termination
+                if self.saving_folder is not None:
+                    self.create_checkpoint(self.saving_folder)
+
                 # check convergence for early termination
                 if self.convergence_precision is not None:
                     converged = self.check_convergence(
@@ -467,9 +471,6 @@ class Calibrator(BaseSeedable):
                             print("\nCONVERGENCE CHECK:")
                             print("Achieved convergence loss, stopping search.")
                         break
-
-                if self.saving_folder is not None:
-                    self.create_checkpoint(self.saving_folder)
 
             idx = np.argsort(self.losses_samp)
 
